@@ -13,13 +13,15 @@ use serde_json::{json, Value};
 
 // (G<i32> / G<u8>: the same trait path with different generic arguments are different bounds)
 // (`H<Out = u8>`: a bound with an associated-type binding; `for<'x> L<'x>`: a higher-ranked bound)
-const POOL: [&str; 9] = ["B0", "B1", "B2", "B3", "Clone", "G<i32>", "G<u8>", "H<Out = u8>", "for<'x> L<'x>"];
+// (`Cmp<D>`: a bound that mentions the dependency parameter itself - named-generic forms only)
+const POOL: [&str; 10] = ["B0", "B1", "B2", "B3", "Clone", "G<i32>", "G<u8>", "H<Out = u8>", "for<'x> L<'x>", "Cmp<D>"];
 
 /// `impl <POOL[b]> for <ty> {..}`
 fn impl_line(b: usize, ty: &str) -> String {
     match b {
         7 => format!("impl H for {ty} {{ type Out = u8; }}\n"),
         8 => format!("impl<'x> L<'x> for {ty} {{}}\n"),
+        9 => format!("impl Cmp<{ty}> for {ty} {{}}\n"),
         _ => format!("impl {} for {ty} {{}}\n", POOL[b]),
     }
 }
@@ -42,6 +44,8 @@ struct FnDecl {
     paren_mask: u32,
     /// a higher-ranked bound in the where clause is written with the binder on the predicate: `for<'x> D: L<'x>`
     pred_binder: bool,
+    /// the bounded type of the where predicates is written in parentheses: `where (D): A + B`
+    paren_bounded: bool,
 }
 
 impl FnDecl {
@@ -67,6 +71,8 @@ impl FnDecl {
                 } else {
                     format!("D: {}, for<'x> D: L<'x>", rest.join(" + "))
                 }
+            } else if self.paren_bounded {
+                format!("(D): {}", part.join(" + "))
             } else {
                 format!("D: {}", part.join(" + "))
             }
@@ -120,7 +126,12 @@ pub fn gen_case(t: &mut Tape, feature_unimock: bool) -> Case {
                 bounds.push(b);
             }
         }
-        fns.push(FnDecl { name: format!("f{i}"), by_value: t.chance(1, 5), bounds, form: t.choose(4) as u8, maybe_sized: t.chance(1, 6), is_async: t.chance(1, 5), paren_mask: if t.chance(1, 4) { t.raw() & 0x3f } else { 0 }, pred_binder: t.flip() });
+        let form = t.choose(4) as u8;
+        if form == 2 {
+            // `impl A + B` has no name for the dependency's type
+            bounds.retain(|b| *b != 9);
+        }
+        fns.push(FnDecl { name: format!("f{i}"), by_value: t.chance(1, 5), bounds, form, maybe_sized: t.chance(1, 6), is_async: t.chance(1, 5), paren_mask: if t.chance(1, 4) { t.raw() & 0x3f } else { 0 }, pred_binder: t.flip(), paren_bounded: t.chance(1, 5) });
     }
     // mock settings (never exported here: the derivations stay inert, but they decide which types get the impl)
     let mock_api = t.chance(1, 3);
@@ -172,7 +183,7 @@ pub fn gen_case(t: &mut Tape, feature_unimock: bool) -> Case {
     for b in 0..4 {
         src.push_str(&format!("pub trait B{b} {{}}\n"));
     }
-    src.push_str("pub trait Extra {}\npub trait G<T> {}\npub trait H { type Out; }\npub trait L<'x> {}\n");
+    src.push_str("pub trait Extra {}\npub trait G<T> {}\npub trait H { type Out; }\npub trait L<'x> {}\npub trait Cmp<X: ?Sized> {}\n");
     if module {
         src.push_str(&format!("#[::entrait::entrait({attr})]\npub mod m {{\n    use super::*;\n"));
         for f in &fns {
@@ -223,6 +234,10 @@ pub fn gen_case(t: &mut Tape, feature_unimock: bool) -> Case {
         sp.push_str(&format!("{}pub struct XBorrowed<'a>(pub &'a u8);\n", if clone { "#[derive(Clone)] " } else { "" }));
         for &b in &declared {
             if b != 4 {
+                if b == 9 {
+                    sp.push_str("impl<'a> Cmp<XBorrowed<'a>> for XBorrowed<'a> {}\nimpl<'a> Cmp<::entrait::Impl<XBorrowed<'a>>> for ::entrait::Impl<XBorrowed<'a>> {}\n");
+                    continue;
+                }
                 sp.push_str(&impl_line(b, "XBorrowed<'a>").replacen("impl<'x>", "impl<'a, 'x>", 1).replacen("impl H", "impl<'a> H", 1).replacen(&format!("impl {}", POOL[b]), &format!("impl<'a> {}", POOL[b]), 1));
                 sp.push_str(&impl_line(b, "::entrait::Impl<XBorrowed<'a>>").replacen("impl<'x>", "impl<'a, 'x>", 1).replacen("impl H", "impl<'a> H", 1).replacen(&format!("impl {}", POOL[b]), &format!("impl<'a> {}", POOL[b]), 1));
             }
@@ -240,6 +255,12 @@ pub fn gen_case(t: &mut Tape, feature_unimock: bool) -> Case {
     }
     src.push_str("    fails\n}\n");
     let mut classes = vec![];
+    if fns.iter().any(|f| f.paren_bounded && !f.bounds.is_empty() && (f.form == 1 || (f.form == 3 && f.bounds.len() >= 2))) {
+        classes.push("parenthesised_bounded_type_in_where_predicate");
+    }
+    if fns.iter().any(|f| f.bounds.contains(&9)) {
+        classes.push("bound_mentions_the_dependency_parameter");
+    }
     if fns.iter().any(|f| f.paren_mask != 0 && !f.bounds.is_empty()) {
         classes.push("parenthesised_bound");
     }
